@@ -4,6 +4,7 @@ import (
 	"fmt"
 	"regexp"
 	"strings"
+	"time"
 )
 
 // c14Replay: the OpenVPN replay timestamp window. The documentation of the matcher promises that a timestamp of up
@@ -126,6 +127,44 @@ func timeModel(callee string, args []SV) (SV, bool) {
 			}
 			return symInt(s), true
 		}
+	case "time.Parse":
+		if len(args) == 2 && args[0].K == "str" && args[0].Known && args[1].K == "str" && args[1].Known {
+			t, err := time.Parse(args[0].S, args[1].S)
+			if err != nil {
+				return symTuple(symInt(0), SV{K: "ref", Known: true, Desc: "errTimeParse"}), true
+			}
+			// layouts without a date give year 0: keep the value as nanoseconds since 0000-01-01 so that Clock() works
+			base := time.Date(0, 1, 1, 0, 0, 0, 0, time.UTC)
+			_, off := t.Zone()
+			st := symInt(int64(t.Sub(base)))
+			st.Desc = fmt.Sprintf("time(%s,zone%+d)", args[1].S, off)
+			return symTuple(st, symNil()), true
+		}
+	case "(time.Time).Clock":
+		if known(0) {
+			secs := args[0].N / sec
+			secs = ((secs % 86400) + 86400) % 86400
+			return symTuple(symInt(secs/3600), symInt(secs%3600/60), symInt(secs%60)), true
+		}
+	case "(time.Time).Zone":
+		if known(0) {
+			off := int64(0)
+			if i := strings.Index(args[0].Desc, ",zone"); i >= 0 {
+				fmt.Sscanf(args[0].Desc[i+5:], "%d", &off)
+			}
+			return symTuple(symStr(""), symInt(off)), true
+		}
+	case "time.FixedZone":
+		if len(args) == 2 && args[1].K == "int" && args[1].Known {
+			return SV{K: "ref", Known: true, Desc: fmt.Sprintf("fixedzone(%d)", args[1].N)}, true
+		}
+	case "time.LoadLocation":
+		if len(args) == 1 && args[0].K == "str" && args[0].Known {
+			if _, err := time.LoadLocation(args[0].S); err != nil {
+				return symTuple(symNil(), SV{K: "ref", Known: true, Desc: "errLoadLocation"}), true
+			}
+			return symTuple(SV{K: "ref", Known: true, Desc: "location(" + args[0].S + ")"}, symNil()), true
+		}
 	case "(time.Time).UnixNano":
 		if known(0) {
 			return args[0], true
@@ -228,5 +267,136 @@ func c14DNSRule(c *Ctx, r *Report, rule string) {
 			}
 			r.check(good, rule, fnName, name, c.pos(fn.Pos()), fmt.Sprintf("hit=%v", want), fmt.Sprintf("the rule answers %v, the conjunction of its filters says %v", dedup(got), want))
 		}
+	}
+}
+
+// c14ClockWindow: the clock matcher end to end. Provision is evaluated on configured time points (empty, 00:00:00,
+// ordinary, reversed, malformed) and must leave the window the documentation describes - after defaults to
+// 00:00:00, before 00:00:00 or empty means 24:00:00, a reversed pair is swapped -; Match is then evaluated in the
+// provisioned state on times around both edges: it matches exactly when after <= now < before.
+func c14ClockWindow(c *Ctx, r *Report, rule string) {
+	r.rule(rule, "clock window (evaluation of Provision on 12 configurations, then of Match in the provisioned state on times around the edges): the window is [after, before) with before = 00:00:00 or empty meaning 24:00:00 and a reversed pair swapped; malformed time points fail provisioning", 12)
+	prov := c.Fn("modules/l4clock.(*MatchClock).Provision")
+	match := c.Fn("modules/l4clock.(*MatchClock).Match")
+	if prov == nil || match == nil {
+		r.bad(rule, "modules/l4clock.(*MatchClock)", "exists", "-", "Provision or Match not found")
+		return
+	}
+	secs := func(s string) (int64, bool) {
+		if s == "" {
+			return 0, true
+		}
+		t, err := time.Parse("15:04:05", s)
+		if err != nil {
+			return 0, false
+		}
+		return int64(t.Hour()*3600 + t.Minute()*60 + t.Second()), true
+	}
+	cfgs := [][2]string{{"", ""}, {"10:00:00", ""}, {"10:00:00", "00:00:00"}, {"00:00:00", "00:00:00"}, {"08:00:00", "17:00:00"}, {"17:00:00", "08:00:00"}, {"", "06:00:00"}, {"23:59:59", "00:00:00"}, {"00:00:01", "00:00:02"}, {"25:00:00", ""}, {"8:00", "09:00:00"}, {"08:00:00", "soon"}}
+	for _, cf := range cfgs {
+		a, okA := secs(cf[0])
+		b, okB := secs(cf[1])
+		if b == 0 {
+			b = 86400
+		}
+		if b < a {
+			a, b = b, a
+		}
+		wantErr := !okA || !okB
+		name := fmt.Sprintf("after=%q before=%q", cf[0], cf[1])
+		base := msgScenario(c, msgMatcher{fn: "modules/l4clock.(*MatchClock).Provision"}, msgCase{})
+		inner := base.Call
+		sc := &Scenario{Name: name, MaxVisit: 12, MaxPaths: 200, Inline: base.Inline,
+			Params: map[string]SV{"recv": symRef("m", false), "p0": symOpaque("ctx")},
+			Heap:   map[string]SV{"m.After": symStr(cf[0]), "m.Before": symStr(cf[1]), "m.Timezone": symStr(""), "m.location": symNil(), "m.secondsAfter": symInt(0), "m.secondsBefore": symInt(0)},
+		}
+		for k, v := range base.Heap {
+			if strings.HasPrefix(k, "global:") {
+				sc.Heap[k] = v
+			}
+		}
+		sc.Call = func(callee string, args []SV, ev *symEval, st *symState) (SV, bool) {
+			if v, ok := timeModel(callee, args); ok {
+				return v, true
+			}
+			if strings.HasSuffix(callee, "caddy/v2.NewReplacer") {
+				return symRef("repl", false), true
+			}
+			return inner(callee, args, ev, st)
+		}
+		paths, err := evalPaths(prov, sc)
+		if err != nil || len(paths) == 0 {
+			r.bad(rule, fname(prov), name, c.pos(prov.Pos()), fmt.Sprintf("undecided: %v", err))
+			continue
+		}
+		var problems []string
+		var state map[string]SV
+		for _, p := range paths {
+			if p.Outcome != "return" || len(p.Ret) != 1 || !p.Ret[0].Known {
+				problems = append(problems, "undecided path: "+p.Outcome)
+				continue
+			}
+			failed := !p.Ret[0].Nil
+			if failed != wantErr {
+				problems = append(problems, fmt.Sprintf("provisioning fails=%v, expected %v", failed, wantErr))
+				continue
+			}
+			if failed {
+				continue
+			}
+			sa, sb := p.Heap["m.secondsAfter"], p.Heap["m.secondsBefore"]
+			if !(sa.Known && sb.Known && sa.N == a && sb.N == b) {
+				problems = append(problems, fmt.Sprintf("the window is [%s, %s) seconds, the documentation says [%d, %d)", sa.Desc, sb.Desc, a, b))
+				continue
+			}
+			state = p.Heap
+		}
+		r.check(len(problems) == 0, rule, fname(prov), name, c.pos(prov.Pos()), fmt.Sprintf("window [%d, %d) s, error=%v", a, b, wantErr), strings.Join(dedup(problems), "; "))
+		if state == nil || len(problems) > 0 {
+			continue
+		}
+		// Match in the provisioned state
+		var mprob []string
+		for _, now := range []int64{a - 1, a, a + 1, (a + b) / 2, b - 1, b, b + 1} {
+			if now < 0 || now >= 86400 {
+				continue
+			}
+			want := now >= a && now < b
+			ms := &Scenario{Name: name, MaxVisit: 12, MaxPaths: 200, Inline: base.Inline,
+				Params: map[string]SV{"recv": symRef("m", false), "p0": symRef("cx", false)},
+				Heap:   map[string]SV{},
+			}
+			for k, v := range state {
+				if strings.HasPrefix(k, "m.") || strings.HasPrefix(k, "global:") {
+					ms.Heap[k] = v
+				}
+			}
+			nowV := symInt(now * 1_000_000_000)
+			ms.Call = func(callee string, args []SV, ev *symEval, st *symState) (SV, bool) {
+				switch {
+				case strings.HasSuffix(callee, "Replacer).Get"):
+					return symTuple(nowV, symBool(true)), true
+				case strings.HasSuffix(callee, "Replacer).Set"):
+					return symOpaque("set"), true
+				}
+				if v, ok := timeModel(callee, args); ok {
+					return v, true
+				}
+				return inner(callee, args, ev, st)
+			}
+			mp, err := evalPaths(match, ms)
+			if err != nil || len(mp) == 0 {
+				mprob = append(mprob, fmt.Sprintf("undecided at %d s: %v", now, err))
+				continue
+			}
+			for _, p := range mp {
+				if p.Outcome != "return" || len(p.Ret) != 2 || !p.Ret[0].Known {
+					mprob = append(mprob, fmt.Sprintf("undecided at %d s", now))
+				} else if p.Ret[0].B != want {
+					mprob = append(mprob, fmt.Sprintf("at %02d:%02d:%02d the matcher answers %v, the window [%d, %d) says %v", now/3600, now%3600/60, now%60, p.Ret[0].B, a, b, want))
+				}
+			}
+		}
+		r.check(len(mprob) == 0, rule, fname(match), name+" times around the edges", c.pos(match.Pos()), "matches exactly inside the window", strings.Join(dedup(mprob), "; "))
 	}
 }
